@@ -45,6 +45,11 @@ CHECKS["C16"] = dict(engine="composer-bundles", cat="exploration", ref="DESIGN.m
    text="All words of length <=5 (quick) / <=6 (thorough) over 9 operations (pushes in 6 size classes around the maximum, pop finished, take-and-drop the next-finished handle, timer pop) for finished-queue capacities 0-2, plus random words up to length 40 for capacities 0-4; the oracle checks that accepted payload ids are emitted exactly once in acceptance order, bundle sizes recomputed from the emitted actions never exceed the maximum, and refusals are justified by size or a full queue.",
    note="sizes are prost encoded lengths of the emitted actions; the composer's async executor loop around the factory is not driven here")
 
+CHECKS["C12"] = dict(engine="relayer-batching", cat="exploration", ref="DESIGN.md §5 C12",
+   technique="runtime monitoring: real NextSubmission driven like BlobSubmitter::run with block streams around the 1 MB bound and rollup filters; every taken submission decoded conductor-style (brotli, protobuf lists, checked types, proof audit with an independent RFC 6962 root) and compared offline with the blocks that went in",
+   text="Block streams in four size profiles (tiny / around half / around full incl. oversized / mixed, incompressible payloads, 0-6 rollups, all-or-subset filters) go through try_add / Full push-back / take(), with take() futures dropped un-polled; the oracle checks exactly-once, increasing heights, reported greatest height == content, per-rollup data and proofs, untouched metadata under filters, and the payload bound recomputed from the blobs.",
+   note="Celestia submission and the state file are C11's subject; compressed sizes rely on incompressible random payloads")
+
 def main():
     hooks = subprocess.run(["git", "-C", "/repo", "log", "--format=%h", "--grep=^verif hooks:"], capture_output=True, text=True).stdout.split()
     m = {
@@ -62,6 +67,7 @@ def main():
        {"name": "conductor-celestia", "path": "harness/conductor/celestia.rs", "serves_properties": ["C09"], "kind_free_text": "in-crate test-only child module of astria_conductor::celestia (feature verif)"},
        {"name": "mempool-walk", "path": "harness/seq/mempool.rs", "serves_properties": ["C13"], "kind_free_text": "in-crate test-only child module of astria_sequencer::mempool (feature verif)"},
        {"name": "composer-bundles", "path": "harness/composer/executor.rs", "serves_properties": ["C16"], "kind_free_text": "in-crate test-only child module of astria_composer::executor (feature verif)"},
+       {"name": "relayer-batching", "path": "harness/relayer/write.rs", "serves_properties": ["C12"], "kind_free_text": "in-crate test-only child module of astria_sequencer_relayer::relayer::write (feature verif)"},
        {"name": "chainsim", "path": "harness/seq/app", "serves_properties": ["C01","C02","C03","C04","C05","C06","C07","C14","C15","C18"], "kind_free_text": "in-crate multi-node ABCI driver inside astria_sequencer::app (feature verif) + offline Python oracles"},
      ],
      "checks": [],
